@@ -1,8 +1,1098 @@
-//! JSON family (stub)
-use crate::Entry;
-use vx::Ctx;
-use identity_jose::jwk::Jwk;
-pub fn entries() -> Vec<Entry> { vec![] }
-pub fn jwk_accessors(_k: &Jwk) {}
-pub fn iota_document_accessors(_d: &identity_iota_core::IotaDocument) {}
-pub fn generate(_ctx: &Ctx) {}
+//! JSON family: every node of the JSON tree of every seed document × a fixed mutation menu (all single
+//! mutations; all ordered pairs of mutations at two different nodes in the thorough tier), for every
+//! `from_json` entry point; accepted values go through every public accessor / formatter / serialiser /
+//! follow-up validator of their type.
+
+use crate::{bb, es, st, Entry, In, Local, Out};
+use identity_core::common::{Object, Timestamp, Url};
+use identity_core::convert::{FromJson, ToJson};
+use identity_credential::credential::{Credential, Jwt, LinkedDomainService, LinkedVerifiablePresentationService, RevocationBitmapStatus, Status};
+use identity_credential::presentation::{JwtPresentationOptions, Presentation};
+use identity_credential::revocation::status_list_2021::{StatusList2021Credential, StatusList2021Entry};
+use identity_credential::revocation::RevocationBitmap;
+use identity_credential::validator::{JwtCredentialValidatorUtils, StatusCheck, SubjectHolderRelationship};
+use identity_did::{CoreDID, DIDUrl};
+use identity_document::document::CoreDocument;
+use identity_document::service::{Service, ServiceEndpoint};
+use identity_iota_core::{IotaDocument, IotaDocumentMetadata, StateMetadataDocument, StateMetadataEncoding};
+use identity_jose::jwk::{Jwk, JwkSet};
+use identity_verification::{MethodData, MethodRef, MethodScope, VerificationMethod};
+use std::collections::hash_map::DefaultHasher;
+use std::hash::{Hash, Hasher};
+use vx::{json, Ctx};
+
+// ------------------------------------------------------------------------------------------------ JSON tree
+/// A JSON tree that can represent what `serde_json::Value` cannot: duplicate keys and raw number tokens.
+#[derive(Clone, Debug, PartialEq)]
+pub enum J {
+  Raw(&'static str),
+  Str(String),
+  Arr(Vec<J>),
+  Obj(Vec<(String, J)>),
+}
+
+impl J {
+  pub fn from_value(v: &serde_json::Value) -> J {
+    match v {
+      serde_json::Value::Null => J::Raw("null"),
+      serde_json::Value::Bool(true) => J::Raw("true"),
+      serde_json::Value::Bool(false) => J::Raw("false"),
+      serde_json::Value::Number(n) => J::Str(format!("\u{0}{n}")), // marker: printed raw (see write)
+      serde_json::Value::String(s) => J::Str(s.clone()),
+      serde_json::Value::Array(a) => J::Arr(a.iter().map(J::from_value).collect()),
+      serde_json::Value::Object(o) => J::Obj(o.iter().map(|(k, v)| (k.clone(), J::from_value(v))).collect()),
+    }
+  }
+  pub fn parse(text: &str) -> J {
+    J::from_value(&serde_json::from_str::<serde_json::Value>(text).unwrap_or_else(|e| panic!("seed is not JSON: {e}: {text}")))
+  }
+  pub fn write(&self, out: &mut String) {
+    match self {
+      J::Raw(r) => out.push_str(r),
+      J::Str(s) => {
+        if let Some(n) = s.strip_prefix('\u{0}') {
+          out.push_str(n)
+        } else {
+          out.push_str(&serde_json::to_string(s).unwrap())
+        }
+      }
+      J::Arr(a) => {
+        out.push('[');
+        for (i, x) in a.iter().enumerate() {
+          if i > 0 {
+            out.push(',');
+          }
+          x.write(out);
+        }
+        out.push(']');
+      }
+      J::Obj(o) => {
+        out.push('{');
+        for (i, (k, v)) in o.iter().enumerate() {
+          if i > 0 {
+            out.push(',');
+          }
+          out.push_str(&serde_json::to_string(k).unwrap());
+          out.push(':');
+          v.write(out);
+        }
+        out.push('}');
+      }
+    }
+  }
+  pub fn text(&self) -> String {
+    let mut s = String::new();
+    self.write(&mut s);
+    s
+  }
+  /// Pre-order list of the paths of all nodes (a path is the list of child indices from the root).
+  pub fn paths(&self) -> Vec<Vec<usize>> {
+    fn go(j: &J, cur: &mut Vec<usize>, out: &mut Vec<Vec<usize>>) {
+      out.push(cur.clone());
+      match j {
+        J::Arr(a) => {
+          for (i, x) in a.iter().enumerate() {
+            cur.push(i);
+            go(x, cur, out);
+            cur.pop();
+          }
+        }
+        J::Obj(o) => {
+          for (i, (_, x)) in o.iter().enumerate() {
+            cur.push(i);
+            go(x, cur, out);
+            cur.pop();
+          }
+        }
+        _ => {}
+      }
+    }
+    let mut out = Vec::new();
+    go(self, &mut Vec::new(), &mut out);
+    out
+  }
+  fn get_mut(&mut self, path: &[usize]) -> Option<&mut J> {
+    let mut cur = self;
+    for &i in path {
+      cur = match cur {
+        J::Arr(a) => a.get_mut(i)?,
+        J::Obj(o) => &mut o.get_mut(i)?.1,
+        _ => return None,
+      };
+    }
+    Some(cur)
+  }
+}
+
+/// The mutation menu. `NAMES[i]` documents mutation `i`.
+pub const MUT_NAMES: [&str; 30] = [
+  "delete",
+  "null",
+  "true",
+  "0",
+  "-1",
+  "2^63",
+  "2^64",
+  "1e400 (number)",
+  "\"1e400\"",
+  "1.5",
+  "\"\"",
+  "\" \"",
+  "\"did:x\"",
+  "\"did:ex:%+4\"",
+  "\"did:ex:%41\"",
+  "\"!!!! not base64\"",
+  "[]",
+  "{}",
+  "duplicate key (second value null) / duplicate element",
+  "duplicate key (same value twice)",
+  "swap with next sibling",
+  "wrap in array",
+  "deep nest (200 arrays)",
+  "\"9999-12-31T23:59:59-01:00\"",
+  "\"0000-01-01T00:00:00+00:01\"",
+  "\"https://a.b/c?d#e\"",
+  "long string (70 000 x 'A')",
+  "\"did:iota:0x00..00\" (placeholder IOTA DID)",
+  "string with NUL, quote, backslash, non-BMP",
+  "\"#\"",
+];
+pub const N_MUT: usize = MUT_NAMES.len();
+
+/// Apply mutation `m` at `path`. Returns false when the mutation is not applicable there (then the case is
+/// not generated at all).
+pub fn mutate(root: &mut J, path: &[usize], m: usize) -> bool {
+  let replace = |root: &mut J, v: J| -> bool {
+    match root.get_mut(path) {
+      Some(n) => {
+        *n = v;
+        true
+      }
+      None => false,
+    }
+  };
+  match m {
+    0 | 18 | 19 | 20 => {
+      // structural mutations need the parent
+      let Some((&last, parent_path)) = path.split_last() else { return false };
+      let Some(parent) = root.get_mut(parent_path) else { return false };
+      match parent {
+        J::Arr(a) => {
+          if last >= a.len() {
+            return false;
+          }
+          match m {
+            0 => {
+              a.remove(last);
+            }
+            18 | 19 => {
+              let c = a[last].clone();
+              a.insert(last, c);
+              if m == 19 {
+                return false; // identical to 18 for arrays
+              }
+            }
+            _ => {
+              if last + 1 >= a.len() {
+                return false;
+              }
+              a.swap(last, last + 1);
+            }
+          }
+          true
+        }
+        J::Obj(o) => {
+          if last >= o.len() {
+            return false;
+          }
+          match m {
+            0 => {
+              o.remove(last);
+            }
+            18 => {
+              let k = o[last].0.clone();
+              o.push((k, J::Raw("null")));
+            }
+            19 => {
+              let c = o[last].clone();
+              o.push(c);
+            }
+            _ => {
+              // swap the VALUES of two neighbouring members
+              if last + 1 >= o.len() {
+                return false;
+              }
+              let (a, b) = o.split_at_mut(last + 1);
+              std::mem::swap(&mut a[last].1, &mut b[0].1);
+            }
+          }
+          true
+        }
+        _ => false,
+      }
+    }
+    1 => replace(root, J::Raw("null")),
+    2 => replace(root, J::Raw("true")),
+    3 => replace(root, J::Raw("0")),
+    4 => replace(root, J::Raw("-1")),
+    5 => replace(root, J::Raw("9223372036854775808")),
+    6 => replace(root, J::Raw("18446744073709551616")),
+    7 => replace(root, J::Raw("1e400")),
+    8 => replace(root, J::Str("1e400".into())),
+    9 => replace(root, J::Raw("1.5")),
+    10 => replace(root, J::Str(String::new())),
+    11 => replace(root, J::Str(" ".into())),
+    12 => replace(root, J::Str("did:x".into())),
+    13 => replace(root, J::Str("did:ex:%+4".into())),
+    14 => replace(root, J::Str("did:ex:%41".into())),
+    15 => replace(root, J::Str("!!!! not base64".into())),
+    16 => replace(root, J::Arr(vec![])),
+    17 => replace(root, J::Obj(vec![])),
+    21 => match root.get_mut(path) {
+      Some(n) => {
+        let c = n.clone();
+        *n = J::Arr(vec![c]);
+        true
+      }
+      None => false,
+    },
+    22 => match root.get_mut(path) {
+      Some(n) => {
+        let mut c = n.clone();
+        for _ in 0..200 {
+          c = J::Arr(vec![c]);
+        }
+        *n = c;
+        true
+      }
+      None => false,
+    },
+    23 => replace(root, J::Str("9999-12-31T23:59:59-01:00".into())),
+    24 => replace(root, J::Str("0000-01-01T00:00:00+00:01".into())),
+    25 => replace(root, J::Str("https://a.b/c?d#e".into())),
+    26 => replace(root, J::Str("A".repeat(70_000))),
+    27 => replace(root, J::Str(format!("did:iota:0x{}", "0".repeat(64)))),
+    28 => replace(root, J::Str("a\u{0}\"\\\u{1F600}\u{FFFD}".into())),
+    29 => replace(root, J::Str("#".into())),
+    _ => false,
+  }
+}
+
+pub struct JsonSweep {
+  pub entry: &'static str,
+  pub seeds: Vec<String>,
+}
+
+/// All single mutations; in thorough all ordered pairs (node1 before node2 in pre-order, both taken from the seed
+/// tree; the second mutation is skipped when its node no longer exists after the first).
+pub fn run_json_sweeps(ctx: &Ctx, part: &str, sweeps: &[JsonSweep], pairs: bool, pair_mutations: &[usize]) {
+  struct Item<'a> {
+    entry: &'static str,
+    seed: &'a J,
+    paths: &'a [Vec<usize>],
+    // first mutation (path index, mutation); None = the unmutated seed
+    first: Option<(usize, usize)>,
+    pairs: bool,
+  }
+  let trees: Vec<(usize, J, Vec<Vec<usize>>)> = sweeps
+    .iter()
+    .enumerate()
+    .flat_map(|(i, s)| {
+      s.seeds.iter().map(move |t| {
+        let j = J::parse(t);
+        let p = j.paths();
+        (i, j, p)
+      })
+    })
+    .collect();
+  let mut items = Vec::new();
+  for (i, j, p) in &trees {
+    let entry = sweeps[*i].entry;
+    if !crate::only(entry) {
+      continue;
+    }
+    items.push(Item { entry, seed: j, paths: p, first: None, pairs: false });
+    for pi in 0..p.len() {
+      for m in 0..N_MUT {
+        items.push(Item { entry, seed: j, paths: p, first: Some((pi, m)), pairs: pairs && pair_mutations.contains(&m) });
+      }
+    }
+  }
+  let (n, tr, _, acc) = crate::par_chunks(ctx, &items, |it, local: &mut Local| {
+    let e = crate::entry(it.entry);
+    let mut n = 0u64;
+    match it.first {
+      None => {
+        let t = it.seed.text();
+        let out = crate::run1(ctx, e, In::S(&t), local, true);
+        if !out.starts_with("acc") {
+          ctx.require(false, &format!("json seed of {} is not accepted by its entry point ({out}): {}", it.entry, &t[..t.len().min(200)]));
+        }
+        n += 1;
+      }
+      Some((pi, m)) => {
+        let mut j = it.seed.clone();
+        if !mutate(&mut j, &it.paths[pi], m) {
+          return (0, 0);
+        }
+        let t = j.text();
+        crate::run1(ctx, e, In::S(&t), local, true);
+        n += 1;
+        if it.pairs {
+          for pj in pi + 1..it.paths.len() {
+            for &m2 in pair_mutations {
+              let mut j2 = j.clone();
+              if !mutate(&mut j2, &it.paths[pj], m2) {
+                continue;
+              }
+              let t = j2.text();
+              crate::run1(ctx, e, In::S(&t), local, false);
+              n += 1;
+            }
+          }
+        }
+      }
+    }
+    (n, n)
+  });
+  let detail: Vec<_> = sweeps
+    .iter()
+    .enumerate()
+    .map(|(i, s)| json!({"entry": s.entry, "seeds": s.seeds.len(), "nodes": trees.iter().filter(|t| t.0 == i).map(|t| t.2.len()).collect::<Vec<_>>()}))
+    .collect();
+  ctx.part(part, json!({"engine": "E1 full product node x mutation", "documents": n, "edges": tr, "accepted_or_panicked": acc, "mutations": N_MUT, "pairs": pairs, "pair_mutations": pair_mutations.iter().map(|m| MUT_NAMES[*m]).collect::<Vec<_>>(), "sweeps": detail}));
+}
+
+// ------------------------------------------------------------------------------------------------ accessors
+fn hash_of<T: Hash>(t: &T) -> u64 {
+  let mut h = DefaultHasher::new();
+  t.hash(&mut h);
+  h.finish()
+}
+
+pub fn jwk_accessors(k: &Jwk) {
+  st("Jwk::getters");
+  bb((k.kty(), k.use_(), k.key_ops().map(|o| o.len()), k.alg(), k.kid(), k.x5u().map(|u| u.to_string()), k.x5c().map(|c| c.len()), k.x5t(), k.x5t_s256()));
+  st("Jwk::params");
+  bb(format!("{:?}", k.params()).len());
+  st("Jwk::try_*_params");
+  bb((k.try_ec_params().is_ok(), k.try_rsa_params().is_ok(), k.try_oct_params().is_ok(), k.try_okp_params().is_ok()));
+  st("Jwk::try_*_curve");
+  bb((k.try_ec_curve().is_ok(), k.try_ed_curve().is_ok(), k.try_ecx_curve().is_ok()));
+  st("Jwk::thumbprint_sha256_b64");
+  bb(k.thumbprint_sha256_b64());
+  st("Jwk::thumbprint_sha256");
+  bb(k.thumbprint_sha256());
+  st("Jwk::thumbprint_hash_input");
+  bb(k.thumbprint_hash_input());
+  st("Jwk::check_alg");
+  bb((k.check_alg("EdDSA").is_ok(), k.check_alg("").is_ok()));
+  st("Jwk::is_public/is_private");
+  bb((k.is_public(), k.is_private()));
+  st("Jwk::to_public");
+  if let Some(p) = k.to_public() {
+    st("Jwk::to_public>to_public");
+    bb(p.to_public().map(|q| q.thumbprint_sha256_b64()));
+  }
+  st("Jwk::to_json/Debug/Hash");
+  bb((k.to_json().is_ok(), format!("{k:?}").len(), hash_of(k)));
+  st("Jwk::set_params");
+  let mut c = k.clone();
+  bb(c.set_params(k.params().clone()).is_ok());
+  st("Jwk::setters");
+  c.set_kty(k.kty());
+  c.set_alg("EdDSA");
+  c.set_kid("k");
+  bb(c.to_json().is_ok());
+  st("VerificationMethod::new_from_jwk");
+  let did = CoreDID::parse("did:example:123").unwrap();
+  bb(VerificationMethod::new_from_jwk(did.clone(), k.clone(), None).is_ok());
+  if let Ok(m) = VerificationMethod::new_from_jwk(did, k.clone(), Some("#frag")) {
+    method_accessors(&m);
+  }
+  st("verifiers(Jwk)");
+  verify_with(k);
+}
+
+/// Feed an accepted JWK to the real signature verifiers with signatures of every relevant length.
+pub fn verify_with(k: &Jwk) {
+  use identity_jose::jws::{JwsAlgorithm, JwsVerifier, VerificationInput};
+  for alg in [JwsAlgorithm::EdDSA, JwsAlgorithm::ES256, JwsAlgorithm::ES256K, JwsAlgorithm::HS256] {
+    for siglen in [0usize, 1, 63, 64, 65] {
+      let input = VerificationInput { alg, signing_input: b"abc".to_vec().into_boxed_slice(), decoded_signature: vec![0x11u8; siglen].into_boxed_slice() };
+      bb(vx::fx::RealVerifier.verify(input, k).is_ok());
+    }
+  }
+}
+
+pub fn jwk_set_accessors(s: &JwkSet) {
+  st("JwkSet::len/iter/get");
+  bb((s.len(), s.is_empty(), s.as_slice().len(), s.iter().count(), s.get("k").len(), s.get("").len()));
+  st("JwkSet::keys");
+  for k in s.iter() {
+    jwk_accessors(k);
+  }
+  st("JwkSet::mutate");
+  let mut c = s.clone();
+  bb((c.del(0), c.del(usize::MAX), c.pop().is_some()));
+  st("JwkSet::to_json/Debug");
+  bb((s.to_json().is_ok(), format!("{s:?}").len()));
+}
+
+pub fn method_accessors(m: &VerificationMethod) {
+  st("VerificationMethod::getters");
+  bb((m.id().to_string(), m.controller().to_string(), m.type_().to_string(), m.properties().len()));
+  st("VerificationMethod::data");
+  let d: &MethodData = m.data();
+  bb((d.try_decode().is_ok(), d.public_key_jwk().is_some(), d.try_public_key_jwk().is_ok(), d.custom().is_some(), format!("{d:?}").len()));
+  st("VerificationMethod::Display/Debug/to_json");
+  bb((m.to_string().len(), format!("{m:?}").len(), m.to_json().is_ok()));
+  st("VerificationMethod::to_json>from_json");
+  if let Ok(j) = m.to_json() {
+    bb(VerificationMethod::from_json(&j).is_ok());
+  }
+  st("VerificationMethod::set_id");
+  let mut c = m.clone();
+  bb(c.set_id(DIDUrl::parse("did:example:9#x").unwrap()).is_ok());
+  bb(c.set_id(DIDUrl::parse("did:example:9").unwrap()).is_ok());
+  st("VerificationMethod::map/try_map/into_method_ref");
+  let r = m.clone().map(|d| d).into_method_ref();
+  bb((r.id().to_string(), r.controller().map(|c| c.to_string()), r.is_embedded(), r.is_referred()));
+  st("MethodDigest::new");
+  bb(identity_storage::key_id_storage::MethodDigest::new(m).map(|d| d.pack()).is_ok());
+  st("VerificationMethod>Jwk accessors");
+  if let Some(k) = d.public_key_jwk() {
+    let k = k.clone();
+    // (no recursion into new_from_jwk: jwk_accessors would build methods again)
+    bb((k.thumbprint_sha256_b64(), k.to_public().is_some(), k.is_public(), k.try_ed_curve().is_ok()));
+    verify_with(&k);
+  }
+}
+
+pub fn service_accessors(s: &Service) {
+  st("Service::getters");
+  bb((s.id().to_string(), s.type_().len(), s.type_().iter().map(|t| t.len()).sum::<usize>(), s.properties().len()));
+  st("Service::service_endpoint");
+  match s.service_endpoint() {
+    ServiceEndpoint::One(u) => bb(u.to_string()),
+    ServiceEndpoint::Set(v) => bb(v.len()),
+    ServiceEndpoint::Map(m) => bb(m.len()),
+  }
+  bb((s.service_endpoint().to_string(), format!("{:?}", s.service_endpoint()).len(), s.service_endpoint().to_json().is_ok()));
+  st("Service::Display/Debug/to_json");
+  bb((s.to_string().len(), format!("{s:?}").len(), s.to_json().is_ok()));
+  st("Service::set_id");
+  let mut c = s.clone();
+  bb(c.set_id(DIDUrl::parse("did:example:9").unwrap()).is_ok());
+  st("RevocationBitmap::try_from(Service)");
+  if let Ok(bm) = RevocationBitmap::try_from(s) {
+    crate::binary::bitmap_accessors(&bm, s);
+  }
+  st("LinkedDomainService::try_from");
+  if let Ok(l) = LinkedDomainService::try_from(s.clone()) {
+    st("LinkedDomainService::domains");
+    bb(l.domains().len());
+    st("LinkedDomainService::id/into");
+    bb((l.id().to_string(), Service::from(l.clone()).to_json().is_ok(), format!("{l:?}").len()));
+  }
+  st("LinkedVerifiablePresentationService::try_from");
+  if let Ok(l) = LinkedVerifiablePresentationService::try_from(s.clone()) {
+    st("LinkedVerifiablePresentationService::verifiable_presentation_urls");
+    bb(l.verifiable_presentation_urls().len());
+    st("LinkedVerifiablePresentationService::id/to_json");
+    bb((l.id().to_string(), l.to_json().is_ok()));
+  }
+}
+
+fn method_ref_accessors(r: &MethodRef) {
+  bb((r.id().to_string(), r.controller().map(|c| c.to_string()), r.is_embedded(), r.is_referred()));
+  bb(r.clone().try_into_embedded().is_ok());
+  bb(r.clone().try_into_referenced().is_ok());
+}
+
+pub fn core_document_accessors(d: &CoreDocument) {
+  st("CoreDocument::id/controller/aka");
+  bb((d.id().to_string(), d.controller().map(|c| c.iter().map(|x| x.as_str().len()).sum::<usize>()), d.also_known_as().len(), d.properties().len()));
+  crate::strings::core_did_accessors(d.id());
+  st("CoreDocument::sets");
+  bb((d.verification_method().len(), d.authentication().len(), d.assertion_method().len(), d.key_agreement().len(), d.capability_delegation().len(), d.capability_invocation().len(), d.service().len()));
+  st("CoreDocument::methods(scope)");
+  bb(d.methods(None).len());
+  for scope in [MethodScope::VerificationMethod, MethodScope::authentication(), MethodScope::assertion_method(), MethodScope::key_agreement(), MethodScope::capability_delegation(), MethodScope::capability_invocation()] {
+    bb(d.methods(Some(scope)).len());
+  }
+  st("CoreDocument::verification_relationships");
+  for r in d.verification_relationships() {
+    method_ref_accessors(r);
+    st("CoreDocument::resolve_method_ref");
+    bb(d.resolve_method_ref(r).is_some());
+    st("CoreDocument::verification_relationships");
+  }
+  let ids: Vec<DIDUrl> = d.methods(None).iter().map(|m| m.id().clone()).collect();
+  for m in d.methods(None) {
+    method_accessors(m);
+  }
+  for s in d.service().iter() {
+    service_accessors(s);
+  }
+  st("CoreDocument::resolve_method/service");
+  for q in ["#k", "k", "", "#", "did:example:123#k", "did:0:0#k1", "#rev", "?"] {
+    bb((d.resolve_method(q, None).is_some(), d.resolve_service(q).is_some()));
+  }
+  for id in &ids {
+    bb(d.resolve_method(id, None).is_some());
+    bb(d.resolve_method(id, Some(MethodScope::authentication())).is_some());
+  }
+  st("CoreDocument::Display/Debug/to_json");
+  bb((d.to_string().len(), format!("{d:?}").len()));
+  let j = d.to_json();
+  st("CoreDocument::to_json>from_json");
+  if let Ok(j) = &j {
+    bb(CoreDocument::from_json(j).is_ok());
+  }
+  st("CoreDocument::verify_jws");
+  bb(d.verify_jws("eyJhbGciOiJFZERTQSIsImtpZCI6ImRpZDpleGFtcGxlOjEyMyNrIn0.e30.AAAA", None, &vx::fx::AlwaysOk, &Default::default()).is_ok());
+  // mutations from the accepted state
+  let mut c = d.clone();
+  st("CoreDocument::remove_method");
+  for id in &ids {
+    bb(c.remove_method_and_scope(id).is_some());
+  }
+  st("CoreDocument::remove_service");
+  let sids: Vec<DIDUrl> = d.service().iter().map(|s| s.id().clone()).collect();
+  for id in &sids {
+    bb(c.remove_service(id).is_some());
+  }
+  st("CoreDocument::insert_method");
+  let mut c = d.clone();
+  for (i, id) in ids.iter().enumerate() {
+    if let Some(m) = d.resolve_method(id, None) {
+      bb(c.insert_method(m.clone(), MethodScope::assertion_method()).is_ok());
+      bb(c.attach_method_relationship(id, identity_verification::MethodRelationship::KeyAgreement).is_ok());
+      bb(c.detach_method_relationship(id, identity_verification::MethodRelationship::Authentication).is_ok());
+    }
+    if i > 3 {
+      break;
+    }
+  }
+  st("CoreDocument::insert_service");
+  for s in d.service().iter().take(3) {
+    bb(c.insert_service(s.clone()).is_ok());
+  }
+  st("CoreDocument::(mutated)>to_json");
+  bb(c.to_json().is_ok());
+  st("CoreDocument::try_map");
+  let mapped = d.clone().try_map(
+    |did| Ok::<_, identity_document::Error>(did),
+    |did| Ok(did),
+    |_did| CoreDID::parse("did:example:other"),
+    |did| Ok(did),
+    |_e: identity_did::Error| identity_document::Error::InvalidDocument("x", None),
+  );
+  bb(mapped.is_ok());
+  st("CoreDocument::revoke_credentials");
+  let mut c = d.clone();
+  use identity_credential::revocation::RevocationDocumentExt;
+  bb((c.revoke_credentials("#rev", &[1, 65536]).is_ok(), c.unrevoke_credentials("#rev", &[1, 7]).is_ok()));
+  st("IotaDocument::try_from(CoreDocument)");
+  let meta = IotaDocumentMetadata::new();
+  if let Ok(i) = IotaDocument::try_from((d.clone(), meta)) {
+    st("IotaDocument::try_from(CoreDocument)>pack");
+    bb(i.pack().is_ok());
+  }
+}
+
+pub fn iota_document_accessors(d: &IotaDocument) {
+  st("IotaDocument::id");
+  crate::strings::iota_did_accessors(d.id(), false);
+  st("IotaDocument::controller");
+  for c in d.controller() {
+    crate::strings::iota_did_accessors(c, false);
+  }
+  st("IotaDocument::getters");
+  bb((d.also_known_as().len(), d.properties().len(), d.service().len(), d.methods(None).len(), d.methods(Some(MethodScope::authentication())).len()));
+  st("IotaDocument::metadata");
+  bb((d.metadata.created.map(|t| t.to_rfc3339()), d.metadata.updated.map(|t| t.to_rfc3339()), d.metadata.deactivated, d.metadata.properties().len(), format!("{:?}", d.metadata).len(), d.metadata.to_json().is_ok()));
+  st("IotaDocument::Display/Debug/to_json");
+  bb((d.to_string().len(), format!("{d:?}").len()));
+  let j = d.to_json();
+  st("IotaDocument::to_json>from_json");
+  if let Ok(j) = &j {
+    bb(IotaDocument::from_json(j).is_ok());
+  }
+  st("IotaDocument::pack");
+  if let Ok(p) = d.clone().pack() {
+    st("IotaDocument::pack>unpack");
+    if let Ok(s) = StateMetadataDocument::unpack(&p) {
+      st("IotaDocument::pack>unpack>into_iota_document");
+      bb(s.into_iota_document(d.id()).is_ok());
+    }
+  }
+  st("StateMetadataDocument::from(IotaDocument)");
+  let s = StateMetadataDocument::from(d.clone());
+  bb(s.pack(StateMetadataEncoding::Json).is_ok());
+  st("IotaDocument::set_controller");
+  let mut c = d.clone();
+  let ctrls: Vec<_> = d.controller().cloned().collect();
+  c.set_controller(ctrls.into_iter().chain(std::iter::once(d.id().clone())));
+  c.set_controller(std::iter::empty());
+  st("IotaDocument::core_document");
+  core_document_accessors(d.core_document());
+}
+
+pub fn status_accessors(s: &Status) {
+  st("Status::fields/to_json");
+  bb((s.id.to_string(), s.type_.len(), s.properties.len(), s.to_json().is_ok(), format!("{s:?}").len()));
+  st("RevocationBitmapStatus::try_from");
+  if let Ok(r) = RevocationBitmapStatus::try_from(s.clone()) {
+    st("RevocationBitmapStatus::id/index");
+    bb((r.id().map(|u| u.to_string()).ok(), r.index().ok(), r.to_json().is_ok()));
+    st("RevocationBitmapStatus>Status::from");
+    bb(Status::from(r).to_json().is_ok());
+  }
+  st("StatusList2021Entry::try_from(&Status)");
+  if let Ok(e) = StatusList2021Entry::try_from(s) {
+    entry_accessors(&e);
+  }
+  st("RevocationTimeframeStatus::try_from");
+  bb(identity_credential::revocation::validity_timeframe_2024::RevocationTimeframeStatus::try_from(s).is_ok());
+}
+
+pub fn entry_accessors(e: &StatusList2021Entry) {
+  st("StatusList2021Entry::getters");
+  bb((e.id().to_string(), e.purpose(), e.index(), e.status_list_credential().to_string(), format!("{e:?}").len(), e.to_json().is_ok()));
+  st("Status::from(StatusList2021Entry)");
+  bb(Status::from(e.clone()).to_json().is_ok());
+}
+
+static STATUS_LIST_CRED: once_cell::sync::Lazy<StatusList2021Credential> = once_cell::sync::Lazy::new(|| StatusList2021Credential::from_json(SEED_STATUS_LIST_CREDENTIAL).expect("seed status list credential"));
+static ISSUER_DOC: once_cell::sync::Lazy<CoreDocument> = once_cell::sync::Lazy::new(|| CoreDocument::from_json(SEED_CORE_DOC).expect("seed doc"));
+
+pub fn credential_accessors(c: &Credential) {
+  st("Credential::fields");
+  bb((c.context.len(), c.id.as_ref().map(|u| u.to_string()), c.types.len(), c.credential_subject.len(), c.issuer.url().to_string(), c.issuance_date.to_rfc3339(), c.expiration_date.map(|t| t.to_rfc3339()), c.non_transferable, c.properties.len()));
+  bb((c.credential_schema.len(), c.refresh_service.len(), c.terms_of_use.len(), c.evidence.len(), c.proof.as_ref().map(|p| p.type_.len())));
+  st("Credential::check_structure");
+  bb(c.check_structure().is_ok());
+  st("Credential::Display/Debug/to_json");
+  bb((c.to_string().len(), format!("{c:?}").len()));
+  let j = c.to_json();
+  st("Credential::to_json>from_json");
+  if let Ok(j) = &j {
+    bb(Credential::<Object>::from_json(j).is_ok());
+  }
+  st("Credential::serialize_jwt");
+  if let Ok(claims) = c.serialize_jwt(None) {
+    st("Credential::serialize_jwt>validate");
+    crate::tokens::validate_credential_claims(&claims);
+  }
+  st("Credential::serialize_jwt(custom claims)");
+  let mut custom = Object::new();
+  custom.insert("iss".into(), json!("x"));
+  custom.insert("foo".into(), json!(1));
+  bb(c.serialize_jwt(Some(custom)).is_ok());
+  st("JwtCredentialValidatorUtils::check_*");
+  bb((
+    JwtCredentialValidatorUtils::check_structure(c).is_ok(),
+    JwtCredentialValidatorUtils::check_expires_on_or_after(c, Timestamp::now_utc()).is_ok(),
+    JwtCredentialValidatorUtils::check_issued_on_or_before(c, Timestamp::now_utc()).is_ok(),
+    JwtCredentialValidatorUtils::extract_issuer::<CoreDID, _>(c).is_ok(),
+    JwtCredentialValidatorUtils::extract_issuer::<identity_iota_core::IotaDID, _>(c).is_ok(),
+  ));
+  st("JwtCredentialValidatorUtils::check_subject_holder_relationship");
+  let holder = Url::parse("did:example:subject").unwrap();
+  for r in [SubjectHolderRelationship::AlwaysSubject, SubjectHolderRelationship::SubjectOnNonTransferable, SubjectHolderRelationship::Any] {
+    bb(JwtCredentialValidatorUtils::check_subject_holder_relationship(c, &holder, r).is_ok());
+  }
+  st("JwtCredentialValidatorUtils::check_status");
+  for sc in [StatusCheck::Strict, StatusCheck::SkipUnsupported, StatusCheck::SkipAll] {
+    bb(JwtCredentialValidatorUtils::check_status(c, std::slice::from_ref(&*ISSUER_DOC), sc).is_ok());
+  }
+  st("JwtCredentialValidatorUtils::check_status_with_status_list_2021");
+  bb(JwtCredentialValidatorUtils::check_status_with_status_list_2021(c, &STATUS_LIST_CRED, StatusCheck::Strict).is_ok());
+  if let Some(s) = &c.credential_status {
+    status_accessors(s);
+  }
+  st("StatusList2021Credential::try_from(Credential)");
+  if let Ok(s) = StatusList2021Credential::try_from(c.clone()) {
+    status_list_credential_accessors(&s, false);
+  }
+  st("Credential::set_proof");
+  let mut m = c.clone();
+  m.set_proof(None);
+  bb(m.to_json().is_ok());
+}
+
+pub fn status_list_credential_accessors(s: &StatusList2021Credential, deep: bool) {
+  st("StatusList2021Credential::id/purpose");
+  bb((s.id().map(|u| u.to_string()), s.purpose()));
+  st("StatusList2021Credential::entry");
+  for i in [0usize, 1, 7, 8, 131071, 131072, usize::MAX / 8, usize::MAX] {
+    bb(s.entry(i).is_ok());
+  }
+  st("StatusList2021Credential::Display/Debug/to_json");
+  bb((s.to_string().len(), format!("{s:?}").len(), s.to_json().is_ok()));
+  st("StatusList2021Credential::set_credential_status");
+  for i in [0usize, 131071, 131072, usize::MAX] {
+    for v in [true, false] {
+      let mut c = s.clone();
+      let mut target = crate::binary::status_credential(Status::new(Url::parse("https://example.com/s").unwrap(), "x".into()));
+      bb(c.set_credential_status(&mut target, i, v).is_ok());
+    }
+  }
+  st("StatusList2021Credential::update");
+  let mut c = s.clone();
+  bb(c.update(|l| {
+    let _ = l.set_entry(usize::MAX, true);
+    let _ = l.set_entry(0, true);
+    l.set_entry(0, false)
+  })
+  .is_ok());
+  st("StatusList2021Credential::into_inner");
+  let inner = s.clone().into_inner();
+  bb(inner.to_json().is_ok());
+  st("check_status_with_status_list_2021(hostile list)");
+  for i in [0usize, 131072, usize::MAX] {
+    if let Some(id) = s.id() {
+      let e = StatusList2021Entry::new(id.clone(), s.purpose(), i, None);
+      let cred = crate::binary::status_credential(e.into());
+      bb(JwtCredentialValidatorUtils::check_status_with_status_list_2021(&cred, s, StatusCheck::Strict).is_ok());
+    }
+  }
+  if deep {
+    st("StatusList2021Credential>Credential accessors");
+    credential_accessors(&inner);
+  }
+}
+
+pub fn presentation_accessors(p: &Presentation<Jwt>) {
+  st("Presentation::fields");
+  bb((p.context.len(), p.id.as_ref().map(|u| u.to_string()), p.types.len(), p.verifiable_credential.len(), p.holder.to_string(), p.refresh_service.len(), p.terms_of_use.len(), p.properties.len(), p.proof.is_some()));
+  st("Presentation::check_structure");
+  bb(p.check_structure().is_ok());
+  st("Presentation::Display/Debug/to_json");
+  bb((p.to_string().len(), format!("{p:?}").len(), p.to_json().is_ok()));
+  st("Presentation::serialize_jwt");
+  let mut opts = JwtPresentationOptions::default();
+  if let Ok(claims) = p.serialize_jwt(&opts) {
+    st("Presentation::serialize_jwt>validate");
+    crate::tokens::validate_presentation_claims(&claims);
+  }
+  opts.expiration_date = Some(Timestamp::now_utc());
+  opts.issuance_date = Some(Timestamp::now_utc());
+  opts.audience = Some(Url::parse("https://aud.example").unwrap());
+  st("Presentation::serialize_jwt(options)");
+  bb(p.serialize_jwt(&opts).is_ok());
+  st("JwtPresentationValidatorUtils::check_structure");
+  bb(identity_credential::validator::JwtPresentationValidatorUtils::check_structure(p).is_ok());
+}
+
+// ------------------------------------------------------------------------------------------------ entries
+macro_rules! from_json_entry {
+  ($fname:ident, $ty:ty, $acc:expr) => {
+    fn $fname(s: &str) -> Out {
+      match <$ty>::from_json(s) {
+        Err(_) => "rej",
+        Ok(v) => {
+          #[allow(clippy::redundant_closure_call)]
+          ($acc)(&v);
+          "accepted"
+        }
+      }
+    }
+  };
+}
+
+from_json_entry!(e_jwk, Jwk, jwk_accessors);
+from_json_entry!(e_jwk_set, JwkSet, jwk_set_accessors);
+from_json_entry!(e_core_document, CoreDocument, core_document_accessors);
+from_json_entry!(e_iota_document, IotaDocument, iota_document_accessors);
+from_json_entry!(e_method, VerificationMethod, method_accessors);
+from_json_entry!(e_service, Service, service_accessors);
+from_json_entry!(e_credential, Credential, credential_accessors);
+from_json_entry!(e_presentation, Presentation<Jwt>, presentation_accessors);
+from_json_entry!(e_status, Status, status_accessors);
+from_json_entry!(e_entry, StatusList2021Entry, entry_accessors);
+from_json_entry!(e_status_list_credential, StatusList2021Credential, |s: &StatusList2021Credential| status_list_credential_accessors(s, true));
+from_json_entry!(e_method_ref, MethodRef, |r: &MethodRef| {
+  st("MethodRef accessors");
+  method_ref_accessors(r);
+  bb((r.to_json().is_ok(), format!("{r:?}").len()));
+});
+from_json_entry!(e_state_metadata, StateMetadataDocument, |d: &StateMetadataDocument| {
+  st("pack");
+  bb(d.clone().pack(StateMetadataEncoding::Json).is_ok());
+  st("into_iota_document");
+  let did = identity_iota_core::IotaDID::parse(format!("did:iota:smr:{}", crate::strings::VALID_TAG)).unwrap();
+  if let Ok(doc) = d.clone().into_iota_document(&did) {
+    iota_document_accessors(&doc);
+  }
+});
+from_json_entry!(e_presentation_embedded, Presentation<Credential>, |p: &Presentation<Credential>| {
+  st("Presentation<Credential>::check_structure/to_json");
+  bb((p.check_structure().is_ok(), p.to_json().is_ok(), p.to_string().len(), format!("{p:?}").len()));
+  st("Presentation<Credential>::serialize_jwt");
+  bb(p.serialize_jwt(&JwtPresentationOptions::default()).is_ok());
+  for c in &p.verifiable_credential {
+    credential_accessors(c);
+  }
+});
+from_json_entry!(e_duration, identity_core::common::Duration, |d: &identity_core::common::Duration| {
+  st("Duration::to_json/Timestamp arithmetic");
+  bb(d.to_json().is_ok());
+  let t = Timestamp::now_utc();
+  bb((t.checked_add(*d).map(|x| x.to_rfc3339()), t.checked_sub(*d).map(|x| x.to_rfc3339())));
+  for u in [-62167219200i64, 253402300799, 0] {
+    let t = Timestamp::from_unix(u).unwrap();
+    bb((t.checked_add(*d).map(|x| x.to_rfc3339()), t.checked_sub(*d).map(|x| x.to_rfc3339())));
+  }
+});
+
+fn e_options(s: &str) -> Out {
+  use identity_credential::validator::{JwtCredentialValidationOptions, JwtPresentationValidationOptions, KeyBindingJWTValidationOptions};
+  use identity_document::verifiable::JwsVerificationOptions;
+  let mut acc = false;
+  if let Ok(o) = JwtCredentialValidationOptions::from_json(s) {
+    acc = true;
+    bb((o.to_json().is_ok(), format!("{o:?}").len()));
+  }
+  if let Ok(o) = JwtPresentationValidationOptions::from_json(s) {
+    acc = true;
+    bb((o.to_json().is_ok(), format!("{o:?}").len()));
+  }
+  if let Ok(o) = JwsVerificationOptions::from_json(s) {
+    acc = true;
+    bb((o.to_json().is_ok(), format!("{o:?}").len()));
+    st("verify_jws(options)");
+    bb(ISSUER_DOC.verify_jws("eyJhbGciOiJFZERTQSIsImtpZCI6ImRpZDpleGFtcGxlOjEyMyNrIn0.e30.AAAA", None, &vx::fx::AlwaysOk, &o).is_ok());
+  }
+  if let Ok(o) = KeyBindingJWTValidationOptions::from_json(s) {
+    acc = true;
+    bb((o.to_json().is_ok(), format!("{o:?}").len()));
+  }
+  if let Ok(o) = JwtPresentationOptions::from_json(s) {
+    acc = true;
+    bb((o.to_json().is_ok(), format!("{o:?}").len()));
+  }
+  if acc {
+    "accepted"
+  } else {
+    "rej"
+  }
+}
+
+fn e_metadata(s: &str) -> Out {
+  match IotaDocumentMetadata::from_json(s) {
+    Err(_) => "rej",
+    Ok(m) => {
+      st("accessors");
+      bb((m.created.map(|t| t.to_rfc3339()), m.updated.map(|t| t.to_rfc3339()), m.properties().len(), m.to_json().is_ok(), format!("{m:?}").len(), m.to_string().len()));
+      "accepted"
+    }
+  }
+}
+
+fn e_sd_jwt_vc_metadata(s: &str) -> Out {
+  use identity_credential::sd_jwt_vc::metadata::{ClaimMetadata, IssuerMetadata, TypeMetadata};
+  let mut acc = false;
+  if let Ok(t) = TypeMetadata::from_json(s) {
+    acc = true;
+    st("TypeMetadata accessors");
+    bb((t.name(), t.description(), t.extends().map(|u| u.to_string()), t.extends_integrity(), t.claim_metadata().len(), t.display_metadata().len(), t.to_json().is_ok(), format!("{t:?}").len()));
+    st("TypeMetadata::validate_credential");
+    for cred in [json!({}), json!({"vct":"https://example.com/education_credential","name":"x","address":{"street_address":"s","locality":1},"degrees":[{"name":"a"},{"name":2}], "nationalities":["a"]}), json!(null), json!([1])] {
+      bb(t.validate_credential(&cred).is_ok());
+    }
+    for c in t.claim_metadata() {
+      st("ClaimMetadata::check_value_disclosability");
+      bb((c.check_value_disclosability(&json!({"name":"x","degrees":[{"name":"a"}]})).is_ok(), c.check_value_disclosability(&json!(null)).is_ok(), c.path.to_string(), format!("{c:?}").len()));
+    }
+  }
+  if let Ok(c) = ClaimMetadata::from_json(s) {
+    acc = true;
+    st("ClaimMetadata accessors");
+    bb((c.path.to_string(), c.path.len(), c.to_json().is_ok()));
+    bb(c.check_value_disclosability(&json!({"name":"x","address":{"street_address":"s"},"degrees":[{"name":"a"},{"x":1}]})).is_ok());
+  }
+  if let Ok(i) = IssuerMetadata::from_json(s) {
+    acc = true;
+    st("IssuerMetadata accessors");
+    bb((i.to_json().is_ok(), format!("{i:?}").len()));
+    st("IssuerMetadata::validate");
+    if let Some(vc) = crate::tokens::seed_sd_jwt_vc() {
+      bb(i.validate(&vc).is_ok());
+    }
+  }
+  if acc {
+    "accepted"
+  } else {
+    "rej"
+  }
+}
+
+fn e_domain_linkage(s: &str) -> Out {
+  use identity_credential::domain_linkage::DomainLinkageConfiguration;
+  match DomainLinkageConfiguration::from_json(s) {
+    Err(_) => "rej",
+    Ok(c) => {
+      st("linked_dids");
+      bb(c.linked_dids().len());
+      st("issuers");
+      bb(c.issuers().is_ok());
+      st("to_json/Display/Debug");
+      bb((c.to_json().is_ok(), c.to_string().len(), format!("{c:?}").len()));
+      st("JwtDomainLinkageValidator::validate_linkage");
+      let v = identity_credential::domain_linkage::JwtDomainLinkageValidator::with_signature_verifier(vx::fx::AlwaysOk);
+      bb(v.validate_linkage(&*ISSUER_DOC, &c, &Url::parse("https://example.com").unwrap(), &Default::default()).is_ok());
+      "accepted"
+    }
+  }
+}
+
+pub fn entries() -> Vec<Entry> {
+  vec![
+    es("Jwk::from_json", e_jwk),
+    es("JwkSet::from_json", e_jwk_set),
+    es("CoreDocument::from_json", e_core_document),
+    es("IotaDocument::from_json", e_iota_document),
+    es("StateMetadataDocument::from_json", e_state_metadata),
+    es("IotaDocumentMetadata::from_json", e_metadata),
+    es("VerificationMethod::from_json", e_method),
+    es("MethodRef::from_json", e_method_ref),
+    es("Service::from_json", e_service),
+    es("Credential::from_json", e_credential),
+    es("Presentation<Jwt>::from_json", e_presentation),
+    es("Presentation<Credential>::from_json", e_presentation_embedded),
+    es("Status::from_json", e_status),
+    es("StatusList2021Entry::from_json", e_entry),
+    es("StatusList2021Credential::from_json", e_status_list_credential),
+    es("validation/verification options::from_json", e_options),
+    es("Duration::from_json", e_duration),
+    es("sd_jwt_vc metadata::from_json", e_sd_jwt_vc_metadata),
+    es("DomainLinkageConfiguration::from_json", e_domain_linkage),
+  ]
+}
+
+// ------------------------------------------------------------------------------------------------ seeds
+pub const SEED_JWK_OKP: &str = r#"{"kty":"OKP","crv":"Ed25519","x":"11qYAYKxCrfVS_7TyWQHOg7hcvPapiMlrwIaaPcHURo","kid":"k","alg":"EdDSA","use":"sig","key_ops":["verify"]}"#;
+pub const SEED_JWK_OKP_PRIV: &str = r#"{"kty":"OKP","crv":"Ed25519","x":"11qYAYKxCrfVS_7TyWQHOg7hcvPapiMlrwIaaPcHURo","d":"nWGxne_9WmC6hEr0kuwsxERJxWl7MmkZcDusAxyuf2A"}"#;
+pub const SEED_JWK_EC: &str = r#"{"kty":"EC","crv":"P-256","x":"f83OJ3D2xF1Bg8vub9tLe1gHMzV76e8Tus9uPHvRVEU","y":"x_FEzRu9m36HLN_tue659LNpXW6pCyStikYjKIWI5a0","d":"jpsQnnGQmL-YBIffH1136cspYG6-0iY7X1fCE9-E9LI","x5u":"https://example.com/x5u","x5c":["MIIB"],"x5t":"dGh1bWI","x5t#S256":"dGh1bWI"}"#;
+pub const SEED_JWK_EC_K: &str = r#"{"kty":"EC","crv":"secp256k1","x":"WKn-ZIGevcwGIyyrzFoZNBdaq9_TsqzGl96oc0CWuis","y":"y77t-RvAHRKTsSGdIYUfweuOvwrvDD-Q3Hv5J0fSKbE"}"#;
+pub const SEED_JWK_RSA: &str = r#"{"kty":"RSA","n":"0vx7agoebGcQSuuPiLJXZptN9nndrQmbXEps2aiAFbWhM78LhWx4cbbfAAtVT86zwu1RK7aPFFxuhDR1L6tSoc_BJECPebWKRXjBZCiFV4n3oknjhMstn64tZ_2W-5JsGY4Hc5n9yBXArwl93lqt7_RN5w6Cf0h4QyQ5v-65YGjQR0_FDW2QvzqY368QQMicAtaSqzs8KJZgnYb9c7d0zgdAZHzu6qMQvRL5hajrn1n91CbOpbISD08qNLyrdkt-bFTWhAI4vMQFh6WeZu0fM4lFd2NcRwr3XPksINHaQ-G_xBniIqbw0Ls1jF44-csFCur-kEgU8awapJzKnqDKgw","e":"AQAB","d":"X4cTteJY_gn4FYPsXB8rdXix5vwsg1FLN5E3EaG6RJoVH-HLLKD9M7dx5oo7GURknchnrRweUkC7hT5fJLM0WbFAKNLWY2vv7B6NqXSzUvxT0_YSfqijwp3RTzlBaCxWp4doFk5N2o8Gy_nHNKroADIkJ46pRUohsXywbReAdYaMwFs9tv8d_cPVY3i07a3t8MN6TNwm0dSawm9v47UiCl3Sk5ZiG7xojPLu4sbg1U2jx4IBTNBznbJSzFHK66jT8bgkuqsk0GjskDJk19Z4qwjwbsnn4j2WBii3RL-Us2lGVkY8fkFzme1z0HbIkfz0Y6mqnOYtqc0X4jfcKoAC8Q","p":"83i-7IvMGXoMXCskv73TKr8637FiO7Z27zv8oj6pbWUQyLPQBQxtPVnwD20R-60eTDmD2ujnMt5PoqMrm8RfmNhVWDtjjMmCMjOpSXicFHj7XOuVIYQyqVWlWEh6dN36GVZYk93N8Bc9vY41xy8B9RzzOGVQzXvNEvn7O0nVbfs","q":"3dfOR9cuYq-0S-mkFLzgItgMEfFzB2q3hWehMuG0oCuqnb3vobLyumqjVZQO1dIrdwgTnCdpYzBcOfW5r370AFXjiWft_NGEiovonizhKpo9VVS78TzFgxkIdrecRezsZ-1kYd_s1qDbxtkDEgfAITAG9LUnADun4vIcb6yelxk","dp":"G4sPXkc6Ya9y8oJW9_ILj4xuppu0lzi_H7VTkS8xj5SdX3coE0oimYwxIi2emTAue0UOa5dpgFGyBJ4c8tQ2VF402XRugKDTP8akYhFo5tAA77Qe_NmtuYZc3C3m3I24G2GvR5sSDxUyAN2zq8Lfn9EUms6rY3Ob8YeiKkTiBj0","dq":"s9lAH9fggBsoFR8Oac2R_E2gw282rT2kGOAhvIllETE1efrA6huUUvMfBcMpn8lqeW6vzznYY5SSQF7pMdC_agI3nG8Ibp1BUb0JUiraRNqUfLhcQb_d9GF4Dh7e74WbRsobRonujTYN1xCaP6TO61jvWrX-L18txXw494Q_cgk","qi":"GyM_p6JrXySiz1toFgKbWV-JdI3jQ4ypu9rbMWx3rQJBfmt0FoYzgUIZEVFEcOqwemRN81zoDAaa-Bk0KWNGDjJHZDdDmFhW3AN7lI-puxk_mHZGJ11rxyR8O55XLSe3SPmRfKwZI6yU24ZxvQKFYItdldUKGzO6Ia6zTKhAVRU","oth":[{"r":"AA","d":"AA","t":"AA"}]}"#;
+pub const SEED_JWK_OCT: &str = r#"{"kty":"oct","k":"GawgguFyGrWKav7AX4VKUg"}"#;
+pub const SEED_JWK_X25519: &str = r#"{"kty":"OKP","crv":"X25519","x":"3p7bfXt9wbTTW2HC7OQ1Nz-DQ8hbeGdNrfx-FG-IK08"}"#;
+
+pub const SEED_CORE_DOC: &str = r##"{"id":"did:example:123","controller":["did:example:123","did:example:ctrl"],"alsoKnownAs":["https://example.com/"],
+ "verificationMethod":[{"id":"did:example:123#k","controller":"did:example:123","type":"JsonWebKey","publicKeyJwk":{"kty":"OKP","crv":"Ed25519","x":"11qYAYKxCrfVS_7TyWQHOg7hcvPapiMlrwIaaPcHURo"}},
+   {"id":"did:example:123#mb","controller":"did:example:123","type":"Ed25519VerificationKey2018","publicKeyMultibase":"zH3C2AVvLMv6gmMNam3uVAjZpfkcJCwDwnZn6z3wXmqPV"}],
+ "authentication":["did:example:123#k",{"id":"did:example:123#a","controller":"did:example:123","type":"X25519KeyAgreementKey2019","publicKeyBase58":"3M5RCDjPTWPkKSN3sxUmmMqHbmRPegYP1tjcKyrDbt9J"}],
+ "assertionMethod":["did:example:123#mb"],"keyAgreement":["did:example:other#x"],
+ "service":[{"id":"did:example:123#rev","type":"RevocationBitmap2022","serviceEndpoint":"data:application/octet-stream;base64,eJyzMmBgYGQAAWYGATDNysDGwMEAAAscAJI"},
+   {"id":"did:example:123#ld","type":"LinkedDomains","serviceEndpoint":{"origins":["https://foo.example.com","https://bar.example.com"]}},
+   {"id":"did:example:123#lvp","type":["LinkedVerifiablePresentation"],"serviceEndpoint":["https://foo.example.com/vp.jwt"]}],
+ "custom":{"a":[1,2]}}"##;
+pub const SEED_CORE_DOC_MIN: &str = r##"{"id":"did:example:123"}"##;
+pub const SEED_CORE_DOC_CUSTOM: &str = r##"{"id":"did:example:123","verificationMethod":[{"id":"did:example:123#c","controller":"did:example:123","type":"Custom","blockchainAccountId":"eip155:1:0xab16a96D359eC26a11e2C2b3d8f8B8942d5Bfcdb"}],"capabilityInvocation":["did:example:123#c"],"capabilityDelegation":[{"id":"did:example:123#d","controller":"did:foo:bar","type":"T","publicKeyMultibase":"mAQID"}]}"##;
+
+pub fn seed_iota_doc() -> String {
+  let did = format!("did:iota:smr:{}", crate::strings::VALID_TAG);
+  let other = "did:iota:0x71b709dff439f1ac9dd2b9c2e28db0807156b378e13bfa3605ce665aa0d0fdca";
+  format!(
+    r##"{{"doc":{{"id":"{did}","controller":["{other}"],"alsoKnownAs":["https://example.com/"],
+   "verificationMethod":[{{"id":"{did}#k1","controller":"{did}","type":"JsonWebKey","publicKeyJwk":{{"kty":"OKP","crv":"Ed25519","x":"11qYAYKxCrfVS_7TyWQHOg7hcvPapiMlrwIaaPcHURo"}}}}],
+   "authentication":["{did}#k1",{{"id":"{other}#f","controller":"{did}","type":"Ed25519VerificationKey2018","publicKeyMultibase":"zH3C2AVvLMv6gmMNam3uVAjZpfkcJCwDwnZn6z3wXmqPV"}}],
+   "service":[{{"id":"{did}#rev","type":"RevocationBitmap2022","serviceEndpoint":"data:application/octet-stream;base64,eJyzMmAAAwADKABr"}}]}},
+   "meta":{{"created":"2023-11-14T22:13:20Z","updated":"2023-11-14T22:13:20Z","deactivated":false,"governorAddress":"rms1pqyc8l6kq8ffhdazn3d7p8hfzwnj7ddtz5rlmlv7y0vz59fssz9y6eg9y7y","stateControllerAddress":"rms1pqyc8l6kq8ffhdazn3d7p8hfzwnj7ddtz5rlmlv7y0vz59fssz9y6eg9y7y","x":1}}}}"##
+  )
+}
+pub const SEED_STATE_METADATA: &str = r##"{"doc":{"id":"did:0:0","controller":"did:0:0","verificationMethod":[{"id":"did:0:0#k1","controller":"did:0:0","type":"JsonWebKey","publicKeyJwk":{"kty":"OKP","crv":"Ed25519","x":"11qYAYKxCrfVS_7TyWQHOg7hcvPapiMlrwIaaPcHURo"}}],"authentication":["did:0:0#k1"],"service":[{"id":"did:0:0#s","type":"T","serviceEndpoint":"https://example.com/"}]},"meta":{"created":"2023-11-14T22:13:20Z","updated":"2023-11-14T22:13:20Z"}}"##;
+
+pub const SEED_METHOD_JWK: &str = r##"{"id":"did:example:123#k","controller":"did:example:123","type":"JsonWebKey","publicKeyJwk":{"kty":"OKP","crv":"Ed25519","x":"11qYAYKxCrfVS_7TyWQHOg7hcvPapiMlrwIaaPcHURo","kid":"k"},"extra":true}"##;
+pub const SEED_METHOD_MB: &str = r##"{"id":"did:example:123#mb","controller":"did:example:456","type":"Ed25519VerificationKey2018","publicKeyMultibase":"zH3C2AVvLMv6gmMNam3uVAjZpfkcJCwDwnZn6z3wXmqPV"}"##;
+pub const SEED_METHOD_B58: &str = r##"{"id":"did:example:123#b","controller":"did:example:123","type":"X","publicKeyBase58":"3M5RCDjPTWPkKSN3sxUmmMqHbmRPegYP1tjcKyrDbt9J"}"##;
+pub const SEED_METHOD_CUSTOM: &str = r##"{"id":"did:example:123#c","controller":"did:example:123","type":"Custom","blockchainAccountId":{"a":"eip155:1:0xab16"}}"##;
+
+pub const SEED_SERVICE_REV: &str = r##"{"id":"did:example:123#rev","type":"RevocationBitmap2022","serviceEndpoint":"data:application/octet-stream;base64,eJyzMmBgYGQAAWYGATDNysDGwMEAAAscAJI","p":1}"##;
+pub const SEED_SERVICE_LD: &str = r##"{"id":"did:example:123#ld","type":"LinkedDomains","serviceEndpoint":{"origins":["https://foo.example.com","https://bar.example.com"]}}"##;
+pub const SEED_SERVICE_LD_ONE: &str = r##"{"id":"did:example:123#ld","type":["LinkedDomains"],"serviceEndpoint":"https://foo.example.com"}"##;
+pub const SEED_SERVICE_LVP: &str = r##"{"id":"did:example:123#lvp","type":"LinkedVerifiablePresentation","serviceEndpoint":["https://foo.example.com/vp.jwt","https://bar.example.com/vp.jwt"]}"##;
+
+pub const SEED_CREDENTIAL: &str = r##"{"@context":["https://www.w3.org/2018/credentials/v1","https://www.w3.org/2018/credentials/examples/v1"],"id":"https://example.edu/credentials/3732","type":["VerifiableCredential","UniversityDegreeCredential"],
+ "credentialSubject":{"id":"did:example:subject","degree":{"type":"BachelorDegree","name":"Bachelor of Science and Arts"}},"issuer":{"id":"did:example:123","name":"issuer"},"issuanceDate":"2010-01-01T19:23:24Z","expirationDate":"2030-01-01T19:23:24Z",
+ "credentialStatus":{"id":"did:example:123?index=5#rev","type":"RevocationBitmap2022","revocationBitmapIndex":"5"},
+ "credentialSchema":{"id":"https://example.org/examples/degree.json","type":"JsonSchemaValidator2018"},"refreshService":{"id":"https://example.edu/refresh/3732","type":"ManualRefreshService2018"},
+ "termsOfUse":[{"type":"IssuerPolicy","id":"https://example.com/policies/credential/4"}],"evidence":{"id":"https://example.edu/evidence/f2aeec97","type":["DocumentVerification"]},"nonTransferable":true,
+ "proof":{"type":"RsaSignature2018","created":"2017-06-18T21:19:10Z"},"custom":"x"}"##;
+pub const SEED_CREDENTIAL_SL: &str = r##"{"@context":"https://www.w3.org/2018/credentials/v1","type":["VerifiableCredential"],"credentialSubject":[{"id":"did:example:subject"},{"a":1}],"issuer":"did:example:123","issuanceDate":"2010-01-01T19:23:24Z",
+ "credentialStatus":{"id":"https://example.com/credentials/status/3#94567","type":"StatusList2021Entry","statusPurpose":"revocation","statusListIndex":"94567","statusListCredential":"https://example.com/credentials/status/3"}}"##;
+pub const SEED_STATUS_LIST_CREDENTIAL: &str = r##"{"@context":["https://www.w3.org/2018/credentials/v1","https://w3id.org/vc/status-list/2021/v1"],"id":"https://example.com/credentials/status/3","type":["VerifiableCredential","StatusList2021Credential"],"issuer":"did:example:123","issuanceDate":"2021-04-05T14:27:40Z",
+ "credentialSubject":{"id":"https://example.com/credentials/status/3","type":"StatusList2021","statusPurpose":"revocation","encodedList":"H4sIAAAAAAAAA-3BMQEAAADCoPVPbQwfoAAAAAAAAAAAAAAAAAAAAIC3AYbSVKsAQAAA"}}"##;
+pub const SEED_PRESENTATION: &str = r##"{"@context":"https://www.w3.org/2018/credentials/v1","id":"https://example.org/credentials/3732","type":"VerifiablePresentation","verifiableCredential":["eyJhbGciOiJFZERTQSJ9.e30.AAAA","a.b.c"],"holder":"did:example:holder","refreshService":{"id":"https://example.edu/refresh/3732","type":"ManualRefreshService2018"},"termsOfUse":{"type":"IssuerPolicy"},"proof":{"type":"x"},"p":1}"##;
+pub fn seed_presentation_embedded() -> String {
+  format!(r##"{{"@context":"https://www.w3.org/2018/credentials/v1","type":"VerifiablePresentation","verifiableCredential":[{SEED_CREDENTIAL_SL}],"holder":"did:example:holder"}}"##)
+}
+pub const SEED_STATUS_RB: &str = r##"{"id":"did:example:123?index=5#rev","type":"RevocationBitmap2022","revocationBitmapIndex":"5"}"##;
+pub const SEED_STATUS_SL: &str = r##"{"id":"https://example.com/credentials/status/3#94567","type":"StatusList2021Entry","statusPurpose":"suspension","statusListIndex":"94567","statusListCredential":"https://example.com/credentials/status/3"}"##;
+pub const SEED_STATUS_RT: &str = r##"{"id":"did:example:123#rt","type":"RevocationTimeframe2024","startValidityTimeframe":"2024-03-19T13:57:50Z","endValidityTimeframe":"2024-03-19T13:58:50Z","revocationBitmapIndex":"5"}"##;
+pub const SEED_ENTRY_NUM: &str = r##"{"id":"https://example.com/credentials/status/3#94567","type":"StatusList2021Entry","statusPurpose":"revocation","statusListIndex":94567,"statusListCredential":"https://example.com/credentials/status/3"}"##;
+
+pub const SEED_OPTIONS_CRED: &str = r##"{"earliestExpiryDate":"2023-11-14T22:13:20Z","latestIssuanceDate":"2023-11-14T22:13:20Z","status":2,"subjectHolderRelationship":["did:example:holder",0],"verifierOptions":{"nonce":"n","methodScope":"Authentication","methodId":"did:example:123#k"}}"##;
+pub const SEED_OPTIONS_PRES: &str = r##"{"presentationVerifierOptions":{"nonce":"n","methodScope":"Authentication"},"earliestExpiryDate":"2023-11-14T22:13:20Z","latestIssuanceDate":"2023-11-14T22:13:20Z"}"##;
+pub const SEED_OPTIONS_KB: &str = r##"{"nonce":"n","aud":"a","jwsOptions":{"nonce":"n"},"earliestIssuanceDate":"2023-11-14T22:13:20Z","latestIssuanceDate":"2023-11-14T22:13:20Z"}"##;
+pub const SEED_OPTIONS_JWTP: &str = r##"{"expirationDate":"2023-11-14T22:13:20Z","issuanceDate":"2023-11-14T22:13:20Z","audience":"https://a.b"}"##;
+
+pub const SEED_TYPE_METADATA: &str = r##"{"vct":"https://example.com/education_credential","name":"Betelgeuse Education Credential - Preliminary Version","description":"This is our development version of the education credential. Don't panic.","extends":"https://galaxy.example.com/galactic-education-credential-0.9","extends#integrity":"sha256-9cLlJNXN-TsMk-PmKjZ5t0WRL5ca_xGgX3c1VLmXfh-WRL5",
+ "claims":[{"path":["name"],"display":[{"lang":"de-DE","label":"Vor- und Nachname","description":"Der Name des Studenten"}],"sd":"allowed"},{"path":["address","street_address"],"sd":"always"},{"path":["degrees",null],"sd":"never"},{"path":["nationalities",0]}],
+ "display":[{"lang":"en-US","name":"Betelgeuse Education Credential","rendering":{"simple":{"logo":{"uri":"https://betelgeuse.example.com/public/education-logo.png"}}}}],
+ "schema":{"$schema":"https://json-schema.org/draft/2020-12/schema","type":"object","properties":{"name":{"type":"string"}},"required":["name"]}}"##;
+pub const SEED_TYPE_METADATA_URI: &str = r##"{"vct":"https://example.com/c","schema_uri":"https://example.com/schema.json","schema_uri#integrity":"sha256-AAAA"}"##;
+pub const SEED_CLAIM_METADATA: &str = r##"{"path":["degrees",null,"name"],"display":[{"lang":"en","label":"l"}],"sd":"always"}"##;
+pub const SEED_ISSUER_METADATA: &str = r##"{"issuer":"https://example.com/issuer","jwks":{"keys":[{"kty":"OKP","crv":"Ed25519","x":"11qYAYKxCrfVS_7TyWQHOg7hcvPapiMlrwIaaPcHURo","kid":"k"}]}}"##;
+pub const SEED_ISSUER_METADATA_URI: &str = r##"{"issuer":"https://example.com/issuer","jwks_uri":"https://example.com/jwks.json"}"##;
+pub const SEED_DOMAIN_LINKAGE: &str = r##"{"@context":"https://identity.foundation/.well-known/did-configuration/v1","linked_dids":["eyJhbGciOiJFZERTQSJ9.eyJpc3MiOiJkaWQ6ZXhhbXBsZToxMjMifQ.AAAA","a.b.c"]}"##;
+
+pub fn generate(ctx: &Ctx) {
+  let s = |v: &[&str]| v.iter().map(|x| x.to_string()).collect::<Vec<_>>();
+  let sweeps = vec![
+    JsonSweep { entry: "Jwk::from_json", seeds: s(&[SEED_JWK_OKP, SEED_JWK_OKP_PRIV, SEED_JWK_EC, SEED_JWK_EC_K, SEED_JWK_RSA, SEED_JWK_OCT, SEED_JWK_X25519]) },
+    JsonSweep { entry: "JwkSet::from_json", seeds: vec![format!(r#"{{"keys":[{SEED_JWK_OKP},{SEED_JWK_EC_K},{SEED_JWK_OCT}]}}"#), r#"{"keys":[]}"#.to_string()] },
+    JsonSweep { entry: "CoreDocument::from_json", seeds: s(&[SEED_CORE_DOC, SEED_CORE_DOC_MIN, SEED_CORE_DOC_CUSTOM]) },
+    JsonSweep { entry: "IotaDocument::from_json", seeds: vec![seed_iota_doc()] },
+    JsonSweep { entry: "StateMetadataDocument::from_json", seeds: s(&[SEED_STATE_METADATA]) },
+    JsonSweep { entry: "IotaDocumentMetadata::from_json", seeds: s(&[r##"{"created":"2023-11-14T22:13:20Z","updated":"2023-11-14T22:13:20Z","deactivated":true,"governorAddress":"rms1pq","stateControllerAddress":"rms1pq","x":{"y":1}}"##]) },
+    JsonSweep { entry: "VerificationMethod::from_json", seeds: s(&[SEED_METHOD_JWK, SEED_METHOD_MB, SEED_METHOD_B58, SEED_METHOD_CUSTOM]) },
+    JsonSweep { entry: "MethodRef::from_json", seeds: s(&[SEED_METHOD_MB, r##""did:example:123#k""##]) },
+    JsonSweep { entry: "Service::from_json", seeds: s(&[SEED_SERVICE_REV, SEED_SERVICE_LD, SEED_SERVICE_LD_ONE, SEED_SERVICE_LVP]) },
+    JsonSweep { entry: "Credential::from_json", seeds: s(&[SEED_CREDENTIAL, SEED_CREDENTIAL_SL, SEED_STATUS_LIST_CREDENTIAL]) },
+    JsonSweep { entry: "Presentation<Jwt>::from_json", seeds: s(&[SEED_PRESENTATION]) },
+    JsonSweep { entry: "Presentation<Credential>::from_json", seeds: vec![seed_presentation_embedded()] },
+    JsonSweep { entry: "Status::from_json", seeds: s(&[SEED_STATUS_RB, SEED_STATUS_SL, SEED_STATUS_RT]) },
+    JsonSweep { entry: "StatusList2021Entry::from_json", seeds: s(&[SEED_STATUS_SL, SEED_ENTRY_NUM]) },
+    JsonSweep { entry: "StatusList2021Credential::from_json", seeds: s(&[SEED_STATUS_LIST_CREDENTIAL]) },
+    JsonSweep { entry: "validation/verification options::from_json", seeds: s(&[SEED_OPTIONS_CRED, SEED_OPTIONS_PRES, SEED_OPTIONS_KB, SEED_OPTIONS_JWTP, "{}"]) },
+    JsonSweep { entry: "Duration::from_json", seeds: s(&["[1,2]", "[-62167219200,999999999]"]) },
+    JsonSweep { entry: "sd_jwt_vc metadata::from_json", seeds: s(&[SEED_TYPE_METADATA, SEED_TYPE_METADATA_URI, SEED_CLAIM_METADATA, SEED_ISSUER_METADATA, SEED_ISSUER_METADATA_URI]) },
+    JsonSweep { entry: "DomainLinkageConfiguration::from_json", seeds: s(&[SEED_DOMAIN_LINKAGE]) },
+  ];
+  // pairs (thorough): the second mutation ranges over the value-replacing and structural mutations that are
+  // cheap to parse; the long-string and deep-nest mutations stay first-only.
+  let pair_mutations: Vec<usize> = (0..N_MUT).filter(|m| ![22usize, 26].contains(m)).collect();
+  run_json_sweeps(ctx, "json: from_json entry points", &sweeps, ctx.thorough(), &pair_mutations);
+  ctx.sample("json", &In::S(SEED_STATUS_RB).case("Status::from_json"));
+  ctx.bound("json_mutation_menu", MUT_NAMES);
+  ctx.bound("json_mutation_depth", ctx.by_tier("all single mutations", "all single mutations + all ordered pairs at two different nodes"));
+
+  // Duration: the complete boundary product of (seconds, nanoseconds)
+  let secs: [&str; 15] = ["0", "1", "-1", "59", "60", "86400", "253402300799", "253402300800", "-62167219200", "-62167219201", "9223372036854775807", "-9223372036854775808", "9223372036854775808", "1.5", "\"1\""];
+  let nanos: [&str; 13] = ["0", "1", "-1", "999999999", "1000000000", "-999999999", "-1000000000", "2147483647", "-2147483648", "2147483648", "4294967295", "1.5", "null"];
+  let mut cases: Vec<(&'static str, String)> = Vec::new();
+  for a in secs {
+    for b in nanos {
+      cases.push(("Duration::from_json", format!("[{a},{b}]")));
+      cases.push(("Duration::from_json", format!("{{\"seconds\":{a},\"nanoseconds\":{b}}}")));
+    }
+    cases.push(("Duration::from_json", format!("[{a}]")));
+    cases.push(("Duration::from_json", a.to_string()));
+  }
+  crate::strings::run_list(ctx, "json: Duration boundary product", &cases, json!({"seconds": secs.len(), "nanoseconds": nanos.len()}));
+}
